@@ -3,8 +3,10 @@
 ops
   term   [H, bytes]                       coq TermGrid.interp  vs  tools/vt100.py  (oracle vs oracle)
   codes  [w, h] | []                      LiveRender.position_cursor / restore_cursor strings
-  run    [cfg, f0, mode, pre, ops, tags]  a history; result [bytes, raised, hooks, redirected, started, offsets]
-         cfg  = [progress, transient, overflow(0 crop,1 ellipsis,2 visible), W, H, [k]?, [k]?, kind]
+  run    [cfg, f0, mode, pre, ops, tags]  a history; result [bytes, raised, hooks, redirected, started, offsets,
+                                          [redirected?, started?] after every op]
+         cfg  = [progress, transient, overflow(0 crop,1 ellipsis,2 visible), W, H, [k]?, [k]?, kind, base]
+                base 1: the injected exception is a KeyboardInterrupt (not an Exception subclass)
                 kind 0 Live, 1 Progress, 2 Status; the two options are fault indices (render / build)
          mode = 0 free-form history, 1 `with display:` block (pre = lines printed before it)
          ops  = [0,lines] print | [1,lines] log | [2] print(raising) | [3,frame,refresh] update |
@@ -190,7 +192,7 @@ def gen_history(rng, kind, mode, faulty, maxops=40):
                     if rng.random() < 0.8:
                         ops.append([6])
         ops = ops[:maxops]
-    case = [[progress, transient, ovf, W, H, fr, fb, kind], f0, mode, pre, ops, []]
+    case = [[progress, transient, ovf, W, H, fr, fb, kind, 0], f0, mode, pre, ops, []]
     return case
 
 
@@ -273,10 +275,11 @@ def known_progress_transient_full(op, arg):
     return cfg[7] == 1 and bool(cfg[1]) and any(len(f) >= cfg[4] for f in _frames_of(arg))
 
 
-def with_fault(case, which, k):
+def with_fault(case, which, k, base=0):
     c = [list(case[0])] + case[1:]
     c[0][5] = [k] if which == "render" else []
     c[0][6] = [k] if which == "build" else []
+    c[0][8] = base
     return c
 
 
@@ -310,7 +313,9 @@ def generate(rng, tier):
         nr = count_calls(base)
         for which, n in (("render", nr[0]), ("build", nr[1] if kind == 1 else 0)):
             for j in range(n + 1):
-                cases.append(("run", with_fault(base, which, j)))
+                # both kinds: an Exception subclass and a BaseException-only one (KeyboardInterrupt)
+                cases.append(("run", with_fault(base, which, j, 0)))
+                cases.append(("run", with_fault(base, which, j, 1)))
     return cases
 
 
@@ -399,7 +404,7 @@ def model_case(op, arg):
         if m[0] == 3:
             cur = m[1]
         fixed.append(m)
-    return op, [cfg[:8], fx(f0), mode, pre, fixed]
+    return op, [(cfg + [0])[:9], fx(f0), mode, pre, fixed]
 
 
 # ------------------------------------------------------------------ implementation side
@@ -407,8 +412,13 @@ class Boom(Exception):
     pass
 
 
+class BoomBase(KeyboardInterrupt):
+    """what Ctrl-C raises inside a column: not an Exception subclass"""
+
+
 class Fault:
-    def __init__(self, fr, fb):
+    def __init__(self, fr, fb, base=0):
+        self.exc = BoomBase if base else Boom
         self.fr = fr[0] if fr else None
         self.fb = fb[0] if fb else None
         self.nr = 0
@@ -421,7 +431,7 @@ class Fault:
         k = self.nr
         self.nr += 1
         if k == self.fr:
-            raise Boom("render %d" % k)
+            raise self.exc("render %d" % k)
 
     def build(self):
         if not self.armed:
@@ -429,10 +439,11 @@ class Fault:
         k = self.nb
         self.nb += 1
         if k == self.fb:
-            raise Boom("build %d" % k)
+            raise self.exc("build %d" % k)
 
 
-def _mk(console_cls=None):
+def _mk(exc=None):
+    exc = exc or Boom
     from rich.segment import Segment
     from rich.measure import Measurement
     from rich.cells import cell_len
@@ -468,7 +479,7 @@ def _mk(console_cls=None):
 
     class Raiser:
         def __rich_console__(self, console, options):
-            raise Boom("user renderable")
+            raise exc("user renderable")
             yield  # pragma: no cover
 
     return Lines, Wrap, Raiser
@@ -480,9 +491,10 @@ def impl_run(arg):
     from rich.progress import Progress, ProgressColumn
     from rich.status import Status
     cfg, f0, mode, pre, ops, tags = arg
-    progress, transient, ovf, W, H, fr, fb, kind = cfg
-    Lines, Wrap, Raiser = _mk()
-    fault = Fault(fr, fb)
+    progress, transient, ovf, W, H, fr, fb, kind = cfg[:8]
+    base = cfg[8] if len(cfg) > 8 else 0
+    fault = Fault(fr, fb, base)
+    Lines, Wrap, Raiser = _mk(fault.exc)
     buf = io.StringIO()
     console = Console(file=buf, force_terminal=True, width=W, height=H, color_system=None, legacy_windows=False,
                       _environ={}, log_time=False, log_path=False, get_time=lambda: 0.0)
@@ -513,7 +525,12 @@ def impl_run(arg):
         started = lambda: disp._started
     fault.armed = True
     offsets = []
+    obs = []
     raised = False
+
+    def observe():
+        a, b = sys.stdout is not so, sys.stderr is not se
+        obs.append([1 if (a and b) else (0 if not (a or b) else 2), 1 if started() else 0])
 
     def do(o):
         k = o[0]
@@ -560,9 +577,10 @@ def impl_run(arg):
             for o in ops:
                 try:
                     do(o)
-                except Boom:
+                except (Boom, BoomBase):
                     raised = True
                 offsets.append(len(buf.getvalue()))
+                observe()
                 if raised:
                     break
         else:
@@ -572,11 +590,11 @@ def impl_run(arg):
                 with disp:
                     for o in ops:
                         do(o)
-            except Boom:
+            except (Boom, BoomBase):
                 raised = True
         redirected = (sys.stdout is not so) or (sys.stderr is not se)
         return [s2t(buf.getvalue()), 1 if raised else 0, len(console._render_hooks) - hooks0,
-                1 if redirected else 0, 1 if started() else 0, offsets]
+                1 if redirected else 0, 1 if started() else 0, offsets, obs]
     finally:
         sys.stdout, sys.stderr = so, se
 
@@ -609,12 +627,13 @@ def spec_cases(op, arg, out):
         if tags:
             return []
         _, marg = model_case(op, arg)
-        bytes_, raised, hooks, redirected, started, offsets = out
+        bytes_, raised, hooks, redirected, started, offsets, obs = out
         H = cfg[4]
         specs = [("spec.view_ok", [marg, bytes_]),
                  ("spec.cursor_vis_ok", [H, started, bytes_])]
         if mode == 0:
             specs.append(("spec.cursor_ok", [marg, bytes_, offsets]))
+            specs.append(("spec.redirect_ok", obs))
         if mode == 1 or not started:
             # nothing may be left behind once the display is not running: with-block exit, stop(),
             # or an exception that escaped start()
